@@ -111,6 +111,15 @@ func buildImports(imports []*ast.ImportSpec) string {
 }
 
 func (g *Generator) extractTopFiels(pkg *packages.Package, st *ast.StructType, fields *[]*Field) {
+	//names of top-level fields that are left out but still hide promoted fields of the same name
+	hidden := make(map[string]bool)
+	defer func() {
+		for _, f := range *fields {
+			if f.depth > 0 && hidden[f.name] {
+				f.isShadowed = true
+			}
+		}
+	}()
 	for _, f := range st.Fields.List {
 		// if f.Tag != nil {
 		// }
@@ -135,12 +144,14 @@ func (g *Generator) extractTopFiels(pkg *packages.Package, st *ast.StructType, f
 			}
 
 			if strings.HasPrefix(name.Name, "_") {
+				hidden[name.Name] = true
 				continue
 			}
 
 			if f.Tag != nil {
 				new := parseNewTag(f.Tag.Value)
 				if new == "-" {
+					hidden[name.Name] = true
 					continue
 				}
 			}
